@@ -776,7 +776,7 @@ func TestVerifC03(t *testing.T) {
 		res.Notes = append(res.Notes, "time budget expired; largest bound fully covered by this shard: "+lastDone)
 	}
 	res.Notes = append(res.Notes,
-		"ServeUDP needs a kernel *net.UDPConn: the UDP arrival is covered as the body of ServeUDP (Unpack, Handle(FromUDP=true, pool.PackBuffer)); TCP runs through the real ServeTCP on an in-memory listener/connection; DoH through HttpHandler.ServeHTTP on a recorder (no real listener, no net/http server); DoQ is not exercised")
+		"ServeUDP needs a kernel *net.UDPConn: in this part the UDP arrival is the body of ServeUDP (Unpack, Handle(FromUDP=true, pool.PackBuffer)), the server loop itself runs in part u on a loopback socket; TCP runs through the real ServeTCP on an in-memory listener/connection; DoH through HttpHandler.ServeHTTP on a recorder (no real listener, no net/http server); DoQ is not exercised")
 	res.Rule = "covering design (no sampling), three complete sub-products, every case on a freshly built pipeline inside one vs execution: " +
 		"(C) base chains x base queries {MiXed.Example., 255-octet name} x {A,TXT} x OPT {none,0,512,1232,4096,65535,1232+DO} x ALL upstream outcomes (answer sizes straddling 512/1232/4096/65535 with and without the 11-octet OPT, rcodes 0..15, extended rcodes 16/23/4095, TC set, OPT in answer, answer that fits 65535 only compressed, error, garbage, timeout) x 4 arrivals; " +
 		"(B) base chains x the query product IDs x names x types x classes x OPT(size x DO) x flag sets (thorough: all 32 of RD/AD/CD/Z x opcode{0,2}; quick: 7 covering sets) plus malformed shapes {QR=1, 0 questions, 2 questions, answer present, authority present, 2 additionals} with/without OPT and the valid one-non-OPT-additional shape, x 4 arrivals; " +
